@@ -911,18 +911,31 @@ _NUM = re.compile(r"-?\d+\.\d+")
 
 
 def parse_cli_totals(out, nports):
-    """Totals row of the combined report: the line of numbers after the table."""
+    """Totals row of the combined report.  The row is laid out in the columns of the port header
+    line (`|  0   |  1   |...||`); a total of exactly 0 is printed as blanks, so the cells are cut
+    at the header's separator positions."""
     if "Combined Analysis Report" not in out:
         return None
     body = out.split("Combined Analysis Report", 1)[1].split("Loop-Carried Dependencies", 1)[0]
-    rows = [ln for ln in body.splitlines() if ln.strip() and "|" not in ln and _NUM.search(ln)
-            and not ln.strip().startswith("-")]
-    if not rows:
+    lines = body.splitlines()
+    head = next((ln for ln in lines if ln.count("|") >= nports + 1 and "CP" in ln), None)
+    if head is None:
         return None
-    nums = _NUM.findall(rows[-1])
-    if len(nums) < nports:
+    bars = [i for i, ch in enumerate(head) if ch == "|"]
+    rows = [ln for ln in lines if ln.strip() and "|" not in ln and _NUM.search(ln) and not ln.strip().startswith("-")]
+    if not rows or len(bars) < nports + 1:
         return None
-    return [units(float(x)) for x in nums[:nports]]
+    row = rows[-1].ljust(bars[nports] + 1)
+    out_units = []
+    for k in range(nports):
+        cell = row[bars[k] + 1:bars[k + 1] + 1].strip()
+        if not cell:
+            out_units.append(0)
+            continue
+        if not _NUM.fullmatch(cell):
+            return None
+        out_units.append(units(float(cell)))
+    return out_units
 
 
 def cli_many(home, arch, items, nports, flags=(), workers=16):
